@@ -114,8 +114,13 @@ CLAIMED['C09'] = dict(
     text='Partial by design, structural clauses only: (1) gf_gen_cauchy1_matrix and gf_gen_rs_matrix clear k*m bytes, write the identity into the top k x k block and, for rows k..m-1 and columns 0..k-1, store at exactly a + k*i + j the documented coefficient - gf_inv(i xor j), resp. the running product with p0 = 1, p <- p*gen, gen0 = 1, gen <- gen*2 (addresses are closed forms from scalar evolution, incl. the pointer-walking form, checked as polynomial identities; loop trip counts m-k and k); (2) gf_invert_matrix starts out_mat as the identity, applies in each of its three innermost loops the same elementary row operation to in_mat and out_mat (same element index, same expression, the same multiplier value), scales row i by gf_inv(in_mat[i*(n+1)]), adds gf_mul(in_mat[j*n+i], row i) to every row j != i, swaps rows elementwise, and returns -1 exactly where the pivot search ran to n. NOT decided: that every k x k minor of the generated matrices is invertible, that the elimination yields the exact inverse for every non-singular input, recovery of erased blocks.',
     note='Trusts clang 14 IR, opt-14 scalar evolution, the SCEV parser in tools/scev.py (fails closed); width conversions are treated as identity (int index arithmetic assumed not to overflow).')
 
+CLAIMED['C07'] = dict(
+    category='other', design_ref='DESIGN.md section 8.2, C07',
+    technique='static analysis: path-sensitive linear-form dataflow over LLVM IR and over the assembled kernels (counter balance, piecewise header copies), reaching definitions per exit code, switch-region analysis, stored-vs-tested census of state constants, compiler-evaluated constant mirrors',
+    text='Partial by design - the behavioural statement quantifies over call histories and is NOT decided. Decided are the structural clauses that resumption across calls rests on, each for every input at once: (1) in 85 portable functions and 12 asm kernels the counters handed back (next/avail/total per direction) move by the same amount on every path to every return, so the next call starts where this one stopped; (2) the wrapper / block header writers continue a partly written header at offset state->count and advance count by exactly the bytes copied, or reset it when complete; (3) ZSTATE_TMP_X == ZSTATE_X + ZSTATE_TMP_OFFSET for every state with a TMP twin; (4) the asm decoders leave no parked output behind when they return for more input; (5) the gzip / zlib header readers store, in the region of each resume state, only states the resume switch has a case for; (6) every state constant stored anywhere (C and asm) is tested somewhere, so no call can park a context in a state nobody serves. NOT decided: buffered-input and history bookkeeping, temporary output staging, progress of every call, equality of results across slicings.',
+    note='Same trusted base as C10 / C02 / C19; every rule is shared with the property it primarily belongs to.')
+
 NOT_APPLICABLE = {
-    'C07': 'quantifies over call histories and buffer schedules; resumption correctness depends on run-time counts carried in state, no structural clause beyond the state-enum mirror already checked under C01',
 }
 
 PENDING = {}  # properties not yet implemented are listed as not_applicable with reason "check under construction"
